@@ -878,3 +878,272 @@ func checkExitValueNotConsumedEarlier(w *core.World, r *core.Report, rule string
 		fmt.Sprintf("%d destructive read(s) stored in the engine, %d other(s), none ordered before", nKeep, nDisc),
 		"the final output of a graceful end is lost (the destructive read returns the value once): "+bad)
 }
+
+// checkPersisterKeepsMemory (C09 R9): the cache object a session runs on carries the configured
+// capacity (set once by the engine with WithCacheSize). The persister may empty that object but
+// not replace it: every store to Persister.Memory takes a caller's object (a parameter) or a cache
+// that went through WithCacheSize. A fresh NewCache() put in its place has capacity 0 = unlimited.
+func checkPersisterKeepsMemory(w *core.World, r *core.Report, rule string) {
+	n, bad := 0, ""
+	var badPos token.Pos
+	for _, fn := range w.LibFuncs {
+		for _, in := range allInstrs(fn) {
+			st, ok := in.(*ssa.Store)
+			if !ok {
+				continue
+			}
+			tn, f, ok := core.FieldOfAddr(st.Addr)
+			if !ok || tn != "persist.Persister" || f != "Memory" {
+				continue
+			}
+			n++
+			for _, src := range core.Sources(st.Val) {
+				okSrc := false
+				if _, isP := src.(*ssa.Parameter); isP {
+					okSrc = true
+				}
+				if c, isC := src.(*ssa.Call); isC && core.IsCallTo(c, "cache.(*Cache).WithCacheSize") {
+					okSrc = true
+				}
+				if c, isC := src.(*ssa.Const); isC && c.IsNil() {
+					okSrc = true
+				}
+				if !okSrc {
+					bad = fmt.Sprintf("%s replaces the persister's cache object with %s at %s", core.QName(fn), valueDesc(src), w.Pos(st.Pos()))
+					badPos = st.Pos()
+				}
+			}
+		}
+	}
+	r.Check(bad == "" && n > 0, rule, "persist: the session's cache object is emptied, never replaced", badPos, fmt.Sprintf("%d store(s) to Persister.Memory, all of a caller's object", n),
+		"the cache that carries the configured capacity is swapped for another object: a cache made with NewCache() has capacity 0, which means unlimited: "+bad)
+}
+
+// checkLoopAlwaysFinishes (C17 R8): engine.Loop hands the session to Finish (which saves it) on
+// every exit, also when a request of the loop was refused: a refused input must leave the session
+// as it was after the accepted ones - stored, not dropped.
+func checkLoopAlwaysFinishes(w *core.World, r *core.Report, rule string) {
+	lp := w.Func("engine", "Loop")
+	if lp == nil {
+		r.Undecided(rule, "engine.Loop", token.NoPos, "anchor not found")
+		return
+	}
+	r.Touch(core.QName(lp))
+	n := 0
+	cut := cutWithHelpers(w, lp, func(fn *ssa.Function, cut *core.Cut) {
+		for _, c := range core.Calls(fn) {
+			if c.Common().IsInvoke() && c.Common().Method.Name() == "Finish" && core.TypeName(c.Common().Value.Type()) == "engine.Engine" {
+				if _, isGo := c.(*ssa.Go); isGo {
+					continue
+				}
+				cut.AddInstr(c.(ssa.Instruction)) // a call, or a defer registered here (runs at every later return)
+				n++
+			}
+		}
+	}, 1)
+	hit, path := core.Reach(core.Entry(lp), core.IsReturn, cut)
+	r.Check(hit == nil && n > 0, rule, "engine.Loop: the engine is finished on every exit", lp.Pos(), "every return passes Finish or its deferred registration",
+		"Loop can return without finishing the engine (for instance after a refused input): the progress of the accepted requests is not saved and the session resumes from an older state: "+w.PathString(path))
+}
+
+// checkOpenErrorsClassified (C12 R6): when the fs back end cannot open a record file, only "does
+// not exist" may be treated as a miss; any other failure (permissions, too many links, I/O) is
+// reported. The engine takes a miss for a new session and saves a fresh state over the record, so
+// an unreadable record classified as a miss destroys the intact session it could not read.
+// Rule: from the failure edge of every os.Open in package db/fs, every path to the next store read
+// or to a return that does not hand back that error passes the true edge of a not-exist test of
+// that error (errors.Is(err, fs.ErrNotExist) / os.IsNotExist(err)).
+func checkOpenErrorsClassified(w *core.World, r *core.Report, rule string) {
+	n := 0
+	for _, fn := range w.FuncsIn("db/fs") {
+		for _, c := range core.CallsTo(fn, "os.Open", "os.OpenFile", "os.ReadFile", "io/ioutil.ReadFile") {
+			call, ok := c.(*ssa.Call)
+			if !ok {
+				continue
+			}
+			ev := callErr(call)
+			if ev == nil {
+				continue
+			}
+			// only read-side opens: the result is not written to
+			if core.IsCallTo(c, "os.OpenFile") {
+				continue
+			}
+			n++
+			r.Touch(core.QName(fn))
+			fw := core.Forward(ev, nil)
+			cut := core.NewCut()
+			for v := range fw {
+				refs := v.Referrers()
+				if refs == nil {
+					continue
+				}
+				for _, u := range *refs {
+					tc, ok := u.(*ssa.Call)
+					if !ok {
+						continue
+					}
+					name := core.CallName(tc)
+					isTest := name == "os.IsNotExist"
+					if name == "errors.Is" && len(tc.Call.Args) == 2 {
+						for _, s := range core.Sources(tc.Call.Args[1]) {
+							if u2, ok := s.(*ssa.UnOp); ok && u2.Op == token.MUL {
+								if g, ok := u2.X.(*ssa.Global); ok && g.Name() == "ErrNotExist" {
+									isTest = true
+								}
+							}
+						}
+					}
+					if isTest {
+						cut.AddEdge(core.EdgesWhere(tc, true)...)
+					}
+				}
+			}
+			target := func(in ssa.Instruction) bool {
+				if in == ssa.Instruction(call) {
+					return true // the scan goes on to the next candidate
+				}
+				if cc, ok := in.(ssa.CallInstruction); ok && isStoreReadCall(core.CallName(cc)) {
+					return true
+				}
+				ret, ok := in.(*ssa.Return)
+				if !ok {
+					return false
+				}
+				rv := core.ReturnError(ret)
+				if rv == nil {
+					return true // no error result at all: the failure cannot be reported
+				}
+				for _, s := range core.Sources(rv) {
+					if fw[s] || s == ev {
+						return false
+					}
+				}
+				return true
+			}
+			bad := ""
+			nstart := 0
+			for v := range fw {
+				for _, ce := range core.NilTestEdges(v) {
+					if ce.Val {
+						continue
+					}
+					nstart++
+					if hit, path := core.Reach(core.Point{B: ce.E.To(), I: 0}, target, cut); hit != nil {
+						bad = w.PathString(path)
+					}
+				}
+			}
+			if nstart == 0 {
+				bad = "the error is never tested"
+			}
+			r.Check(bad == "", rule, fmt.Sprintf("%s: a failed open is a miss only when the file does not exist", core.QName(fn)), c.Pos(), "other failures reach the caller",
+				"an open failure other than 'does not exist' is skipped or reported as not-found: the engine takes the miss for a new session and saves a fresh state over the record it could not read: "+bad)
+		}
+	}
+	r.Floor(rule, "read-side opens in db/fs", n, 1)
+}
+
+// checkResourceSelectsType (C11 R12): the db-backed resource shares its store handle with the
+// persister and with application code, all of which select data types on it. Each lookup of the
+// resource therefore selects its own data type first, unconditionally: every path from the entry of
+// an exported DbResource method to its store lookup passes SetPrefix (directly, or through a helper
+// that calls it on every path). A remembered "current type" skips the selection exactly when
+// someone else changed it in between, and the lookup then reads session state or user data.
+func checkResourceSelectsType(w *core.World, r *core.Report, rule string) {
+	isGet := func(c ssa.CallInstruction) bool {
+		return c.Common().IsInvoke() && c.Common().Method.Name() == "Get" && core.TypeName(c.Common().Value.Type()) == "db.Db"
+	}
+	var reaches func(g *ssa.Function, d int) bool
+	reaches = func(g *ssa.Function, d int) bool {
+		if g == nil || d > 2 || len(g.Blocks) == 0 {
+			return false
+		}
+		for _, c := range core.Calls(g) {
+			if isGet(c) {
+				return true
+			}
+			if h := core.StaticCallee(c); h != nil && h != g && core.PkgOf(h) == "resource" && reaches(h, d+1) {
+				return true
+			}
+		}
+		return false
+	}
+	n := 0
+	for _, fn := range w.FuncsIn("resource") {
+		if fn.Signature.Recv() == nil || core.TypeName(fn.Signature.Recv().Type()) != "*resource.DbResource" || !token.IsExported(fn.Name()) {
+			continue
+		}
+		cut := cutWithHelpers(w, fn, func(f *ssa.Function, cut *core.Cut) {
+			for _, c := range core.Calls(f) {
+				if c.Common().IsInvoke() && c.Common().Method.Name() == "SetPrefix" && core.TypeName(c.Common().Value.Type()) == "db.Db" {
+					cut.AddInstr(c.(ssa.Instruction))
+				}
+			}
+		}, 1)
+		for _, c := range core.Calls(fn) {
+			lookup := isGet(c)
+			if h := core.StaticCallee(c); !lookup && h != nil && core.PkgOf(h) == "resource" && reaches(h, 0) {
+				lookup = true
+			}
+			if !lookup {
+				continue
+			}
+			n++
+			r.Touch(core.QName(fn))
+			ok, path := core.MustPass(c.(ssa.Instruction), cut)
+			r.Check(ok && len(cut.Instrs) > 0, rule, core.QName(fn)+": selects its data type before the lookup", c.Pos(), "SetPrefix on every path to the lookup",
+				"a lookup of the db-backed resource can run under whatever data type (and session) was last selected on the shared store handle: session state or user data is returned as a template, menu or bytecode: "+w.PathString(path))
+		}
+	}
+	r.Floor(rule, "store lookups of DbResource", n, 3)
+}
+
+// checkDumpKeepsSelection (C10 R11): the data type, session and language selected on a store
+// handle are sticky - they apply to the following reads and writes. A listing must leave them as it
+// found them: no SetLanguage / SetPrefix / SetSession call in a back end's Dump (or the functions
+// of the back end only it calls). The key a listing starts from is the default key, which does not
+// depend on the language, so there is nothing to reset.
+func checkDumpKeepsSelection(w *core.World, r *core.Report, rule string) {
+	n := 0
+	for _, pk := range []string{"db/fs", "db/postgres", "db/mem"} {
+		for _, fn := range w.FuncsIn(pk) {
+			if fn.Name() != "Dump" || fn.Signature.Recv() == nil {
+				continue
+			}
+			n++
+			r.Touch(core.QName(fn))
+			bad := ""
+			var badPos token.Pos
+			scan := []*ssa.Function{fn}
+			for _, c := range core.Calls(fn) {
+				if g := core.StaticCallee(c); g != nil && core.PkgOf(g) == pk && g != fn && len(g.Blocks) > 0 {
+					if sites, esc := staticCallSites(w, g); !esc && len(sites) == 1 {
+						scan = append(scan, g)
+					}
+				}
+			}
+			for _, f := range scan {
+				for _, c := range core.Calls(f) {
+					switch core.CallName(c) {
+					case "db.(*DbBase).SetLanguage", "db.(*DbBase).SetPrefix", "db.(*DbBase).SetSession":
+						bad = fmt.Sprintf("%s calls %s at %s", core.QName(f), core.CallName(c), w.Pos(c.Pos()))
+						badPos = c.Pos()
+					}
+					if c.Common().IsInvoke() {
+						switch c.Common().Method.Name() {
+						case "SetLanguage", "SetPrefix", "SetSession":
+							if core.TypeName(c.Common().Value.Type()) == "db.Db" {
+								bad = fmt.Sprintf("%s calls %s at %s", core.QName(f), core.CallName(c), w.Pos(c.Pos()))
+								badPos = c.Pos()
+							}
+						}
+					}
+				}
+			}
+			r.Check(bad == "", rule, pk+" back end: a listing leaves the handle's selections alone", badPos, "no SetLanguage/SetPrefix/SetSession in Dump",
+				"a listing changes the data type, session or language selected on the store handle and does not put it back: the following read returns (and the following write replaces) the entry of another language, type or session: "+bad)
+		}
+	}
+	r.Floor(rule, "Dump methods of back ends", n, 2)
+}
